@@ -50,14 +50,14 @@ claim("C10", "Proof that parseSemver yields the numeric major/minor of a canonic
       "semverRegex facts and strconv.Atoi incl. its clamped range-error result are assumed contracts.", ["the three gate call sites (serveOne, handleUnary, handleStreamInit) are not under contract yet", "message text parity with Python"])
 claim("C15", "Proof that checkTokenAge refuses exactly tokens older than the TTL, and call-site obligations that every call-cache insertion (mint path and cache-miss path) is stamped with the authenticated token's own creation time, only after age and call-id checks, and that the cache computes expiry as createdAt+ttl.",
       "time.Since modelled as one clock reading per call; container/list not modelled.", ["callStateCache.get expiry comparison and LRU eviction (container/list)", "cross-instance interleavings"])
-claim("C18", "Proof of readHTTPBody's cap selection, exact saturating cap arithmetic (no int64 wraparound), read-at-most-cap+1, refusal type of oversize bodies, identity passthrough, the decoded-cap formula; decompressBounded's output bound and unknown-coding error type; DecodeContentEncoding index safety and termination; writeBodyReadError's 413/415/400 mapping.",
+claim("C18", "Proof of readHTTPBody's cap selection, exact saturating cap arithmetic (no int64 wraparound), read-at-most-cap+1, refusal type of oversize bodies, identity passthrough, the decoded-cap formula; decompressBounded's output bound and unknown-coding error type; DecodeContentEncoding index safety and termination; writeBodyReadError's 413/415/400 mapping; data flow: the decoder that is read to the end was built over the whole raw body and is never switched out of whole-input mode, and what is returned is what that read produced.",
       "io.LimitReader/io.ReadAll contracts assumed; zstd/gzip decoders are unknown calls.", ["decoded bytes equal what the client encoded (codec correctness)", "streaming-frame window behaviour"])
 claim("C19", "Proof of enforceResponseBudgets' decision table and error kinds, and of checkExternalBudget's pre-flight refusal condition and disabled cases.",
       "", ["the producer loop's wire-byte cap (runProduceLoop never consults max_response_bytes: reproduced defect, not yet under contract)", "unary/exchange call sites of enforceResponseBudgets"])
 claim("C22", "Proof, over every control-flow path of handleUnary, handleStreamInit, handleStreamExchange, handleUploadURLInit and handleIntrospectToken, that every call they make (body read, method lookup, handler, provider, resolver, hook, state method) is reached only after authenticate returned non-nil for this request; handleDescribe requires the same of its caller.",
       "admitted(r) is a ghost predicate whose only source is authenticate's result (establishes clause).", ["the route table itself (that no other registered route reaches sensitive code) is checked by reading initRoutes, not yet by an obligation", "session-delete and page routes are outside by the property's own allow-list"])
-claim("C25", "Proof that VerifyProof computes and compares the MAC and records the nonce only inside the two-sided timestamp window, over exactly this proof's fields and this worker's origin, after the MAC matched; that the nonce cache TTL covers the whole acceptance window (lemma nonceWindowCovered + call-site obligation); that in require mode the inner authenticator is reachable only after a verified proof.",
-      "HMAC/ConstantTimeCompare idealisation; clock readings at or after 1970.", ["canonical-string injectivity (proofCanonicalString layout) not yet under contract", "nonceCache internals (container/list)"])
+claim("C25", "Proof that VerifyProof computes and compares the MAC and records the nonce only inside the two-sided timestamp window, over exactly this proof's fields and this worker's origin, after the MAC matched; that the nonce cache TTL covers the whole acceptance window (lemma nonceWindowCovered + call-site obligation); that in require mode the inner authenticator is reachable only after a verified proof; proof of the replay cache itself (checkAndAdd): a remembered nonce whose entry has not expired is refused, entries leave only when expired or when the cache is full, the map/list representation invariant (object invariant over fields encapsulated in newNonceCache/checkAndAdd, checked package-wide) is kept; regex lemmas pin the five field grammars to reference languages.",
+      "HMAC/ConstantTimeCompare idealisation; clock readings at or after 1970; container/list contracts over its own len/list fields (trusted/containers.spec); the clock callback does not touch the cache.", ["canonical-string injectivity (proofCanonicalString layout) not yet under contract", "order of eviction (container/list is modelled without order: Front/Back return some element)"])
 claim("C27", "Proof that unpackOAuthCookie is panic-free for every cookie string, parses fields only after the MAC verified and keeps every field inside the payload; proof of packOAuthCookie's payload layout; the length-prefix exactness obligations fail for fields >= 64 KiB and are recorded as a known finding.",
       "HMAC/base64 idealisation.", ["validateReturnTo / validateOriginalURL and the callback gates are not under contract yet", "round-trip lemma over the two layouts"])
 
@@ -65,9 +65,9 @@ claim("C33", "Proof (data-flow contracts) that the unique part of every S3 and G
       "crypto/rand.Read and uuid.New return values that differ from all others (standard idealisation, trusted/storage.spec).", ["that the storage service does not alias distinct keys"],
       pkgs=[{"dir": "/repo/vgirpc/s3", "pattern": "."}, {"dir": "/repo/vgirpc/gcs", "pattern": "."}])
 
-claim("C02", "Proof over every path of serveStream that a stream call answered with an error has first handed the client's input stream to a draining reader (drainInputStream or the lockstep reader), and that both serveStream's tail and drainInputStream read their reader to exhaustion.",
+claim("C02", "Proof that ReadRequest returns success or an answerable RpcError only after the request stream was read to its end; proof over every path of serveStream that a stream call answered with an error has first handed the client's input stream to a draining reader (drainInputStream or the lockstep reader), and that both serveStream's tail and drainInputStream read their reader to exhaustion.",
       "ipc.NewReader/Reader.Next ghost contracts (inputTaken, exhausted) are assumed.", ["serveOne/serveUnary request-response counting and ordering", "Unix/TCP listeners", "client cancel timing"])
-claim("C03", "Proof that deserializeParams and resolveColumn never index an Arrow column or batch out of range for any client-supplied batch (row 0 is read only after the row count was checked; column indices come from resolveColumn's proved range).",
+claim("C03", "Proof that deserializeParams and resolveColumn never index an Arrow column or batch out of range for any client-supplied batch (row 0 is read only after the row count was checked; column indices come from resolveColumn's proved range; the concrete Binary/Int64 Value(0) calls of deserializeParams, extractCount and setFieldFromArrow are inside the array, whose promoted Len() is tied to the column length).",
       "arrow-go observers are functions of immutable objects and element accessors require an in-range index (trusted/arrow.spec); setFieldFromArrow's own body (reflect type switch) is outside: only its precondition is used.", ["panic-freedom of the whole dispatch path (serveOne, HTTP handlers) beyond these functions and handleStreamExchange's guarded state assertions (C14)", "panics inside Arrow/zstd/gob", "every-HTTP-request-gets-a-response as a whole-server statement"])
 claim("C14", "Proof that handleStreamExchange hands the authenticated cursor's own state and call id to the continuation kind its route's method declares (producer continuation only under a producer or dynamic route, exchange continuation never under a producer route; methodInfo.Type is declared immutable and that is checked over the package on every run), with no unguarded dynamic-type assertion; the obligations that the token was minted by the same method fail because tokens carry no method, and are recorded as a known finding.",
       "", ["method binding itself (known finding)", "handleStreamInit minting side", "unary routes: the exchange continuation is not excluded under a route registered as unary"])
@@ -87,6 +87,17 @@ claim("C17", "Proof of the negotiation walk for all header strings and producibl
 claim("C35", "Proof, for every pointer (offset, length) and every metadata string, that no panic escapes ResolveShmBatch (every panicking instruction and the call to ReadBatch, which may panic on a negative or wrapping pointer, sit behind the recovering defer); that on every normal path the region ReadBatch hands to the IPC reader is exactly s.data[offset:offset+length] with 0 <= length and offset+length <= s.size (a wrapped end never survives), on the plain and on the dictionary path, whose synthesized stream is schema prefix + region + end marker; that the offset released is the decimal value of the pointer's offset string; that the rebuilt metadata carries no pointer key and ends with the source key; that the writers (shmSliceWriter, shmCountWriter, both AllocateAndWrite paths) write only inside the slot the allocator returned and report exactly that (offset, length); that the schema-message cache is keyed by the identity of the schema the message was rendered from.",
       "ShmSegment.size/name are declared immutable (checked package-wide); s.size >= 0 is assumed at the entry of ReadBatch/ResolveShmBatch (boundary; the constructors check size > header size). strconv.ParseUint/Atoi and arrow.Metadata observers are assumed contracts.",
       ["read-back equality of schema and values (Arrow IPC encode/decode round trip, dictionary replacement)", "WritePayload writing the same bytes on the counting and on the copying pass"])
+
+claim("C23", "Proof over every path of authenticate that the status is 503 (with Retry-After) exactly when errors.As finds an AuthUnavailableError in the chain, 401 exactly for a rejection (asAuthFailure finds an AuthFailure in the Unwrap chain, or the error is itself a ValueError/PermissionError RpcError), 500 otherwise, and nil is returned whenever an error response was written; of classifyAuthError's reason table; of writeUnauthorized's reason / no-store / WWW-Authenticate headers; and of the chained authenticator: first success returned, the chain repeats only past a DIRECTLY returned ValueError RpcError with no unavailable authority in its chain (back-edge obligation), any other error returned as is, exhausted chain is a ValueError.",
+      "unavailableInChain / failureInChain ARE the verdicts of errors.As and asAuthFailure (defining postconditions); asAuthFailure's own walk of the Unwrap chain is verified only for the direct case.",
+      ["that asAuthFailure finds an AuthFailure at every depth of the Unwrap chain (interface Unwrap calls are unknown calls)", "Retry-After value rendering", "the closed set of reason codes for AuthFailure values built by callers"])
+claim("C26", "Proof over every path of handleIntrospectToken that the resolver is reached only when introspection is enabled, the caller was authenticated and allow-listed (decided before the subject is read), the per-caller limiter admitted the call, and the credential is non-empty, at most 4096 bytes, not JWS-shaped and passed unchanged; that refusals come from a closed set of (status, code) pairs with every 404 after authentication saying 'unresolved' and the body a function of the code alone; of the limiter's representation invariant (per key 1..perWindow admissions per window, object invariant over encapsulated fields) and admission/refusal postconditions; that at most 8 KiB + 1 of body is read; and a regex lemma (SMT theory of regular languages, all strings): the compiled JWS-shape pattern denotes the reference language.",
+      "jwsShaped is the language of the reference pattern in the contract; tokenIntrospection's fields are declared immutable (checked package-wide); sync.Mutex atomicity for the limiter.",
+      ["the credential never appears in a response or log line (value-flow, not expressible as a first-order fact about strings: a digest or principal may coincide with it)", "json decoding of the body", "window arithmetic across wall-clock jumps"])
+
+claim("C13", "Proof of the byte layout of the AAD every sealed token is bound to (tokenAad: prefix, then 0x00 'anonymous' exactly for a nil or unauthenticated caller, else 0x01, domain, 0x00, principal; for all prefixes and identities), that cursor/sticky and call tokens are sealed under the state resp. call prefix (which differ in their 9th byte), that the call-cache and session-registry identity keys draw the anonymous/authenticated line exactly where the AAD does, and separation lemmas over the layout: an anonymous AAD never equals an authenticated one, and two authenticated AADs with NUL-free domains are equal only for equal domain and principal.",
+      "AEAD idealisation (open succeeds only under the AAD it was sealed with) connects AAD separation to token refusal; it is not an obligation here. The lemmas are stated over byte strings of the layout the postcondition proves.",
+      ["domains containing a NUL byte (the layout is then not injective: (\"a\\x00b\",\"c\") and (\"a\",\"b\\x00c\") share an AAD; the framework's own authenticators use constant NUL-free domains)", "sticky-session tokens share the cursor prefix and are separated from cursors only by the version byte and the plaintext format", "the open/seal call sites (which AAD is passed where) beyond the two prefix wrappers"])
 
 # properties not claimed: reason
 NOT_APPLICABLE = {
